@@ -228,6 +228,9 @@ def scn_full(ctx):
 
     # ---- (a) reproducibility under simulated schedulers, (b) clock ----------------------------
     nsched = 3 if (opt and rows > 0) else 1
+    if rows > 100:
+        nsched = min(nsched, 2)
+        ctx.probes["more_than_100_rows"] += 1
     jump_at = ch.draw(nsched, "clock_jump_run")
     for j in range(nsched):
         n_in = int(np.count_nonzero((np.asarray(R0["altDec"]) >= 0) & (np.asarray(R0["altDec"]) <= 20))) if rows else 0
@@ -315,6 +318,7 @@ def _alignment(ctx, R0, cfg, g, target, opt, massTau, Taus):
     close(col("init_lat"), lat, "init_lat from geometry")
     close(col("init_lon"), lon, "init_lon from geometry")
     if opt:
+        _optical_rows(ctx, R0, cfg, col)
         out = (col("altDec") < 0) | (col("altDec") > 20)
         if np.any(col("numPEs")[out] != 0):
             i = int(np.nonzero(out & (col("numPEs") != 0))[0][0])
@@ -347,11 +351,17 @@ def scn_real(ctx):
         return
     c0 = canon(R0)
 
+    child_hash = str(5000 + ch.draw(1000, "worker_hashseed"))
+
     def once():
+        import os
+
         compute = sys.modules["nuspacesim.compute"].compute
         np.random.seed(s)
         out = sys.stdout
         sys.stdout = _Null()
+        saved_hs = os.environ.get("PYTHONHASHSEED")
+        os.environ["PYTHONHASHSEED"] = child_hash  # spawned workers: their own string-hash seed
         try:
             with seams.simulated_clock(lambda: T0), dask.config.set(scheduler=name, num_workers=nw, **{"multiprocessing.initializer": env.child_init}):
                 try:
@@ -360,6 +370,10 @@ def scn_real(ctx):
                     return f"raised {type(e).__name__}: {str(e)[:200]}"
         finally:
             sys.stdout = out
+            if saved_hs is None:
+                os.environ.pop("PYTHONHASHSEED", None)
+            else:
+                os.environ["PYTHONHASHSEED"] = saved_hs
 
     d = once()
     ctx.nontrivial = len(R0) > 1
@@ -367,6 +381,40 @@ def scn_real(ctx):
         again = sum(1 for _ in range(5) if once())
         raise Violation("c14.schedule_dependent", f"[real {name} x{nw}] results differ from the synchronous run with the same seed: {d} (observational stage; reproduced in {again} of 5 immediate re-runs)", sig="compute")
     ctx.log("real verdict=ok")
+
+
+def _optical_rows(ctx, R0, cfg, col):
+    """Row alignment of the optical columns: a few in-range rows are re-evaluated one at a time
+    from the stored inputs of the same row (a permuted numPEs column is a permutation of the
+    right values and passes every whole-column check)."""
+    from nuspacesim.simulation.atmosphere.clouds import CloudTopHeight
+    from nuspacesim.simulation.eas_optical.cphotang import CphotAng
+
+    inr = np.nonzero((col("altDec") >= 0) & (col("altDec") <= 20))[0]
+    if not inr.size:
+        return
+    pick = sorted(set(int(inr[k]) for k in (0, len(inr) // 3, len(inr) // 2, (2 * len(inr)) // 3, len(inr) - 1)))
+    ck = CphotAng(cfg.detector.initial_position.altitude)
+    if not hasattr(ck, "run"):
+        ctx.probes["optical_row_recomputation_unavailable"] += 1
+        return
+    cloud = CloudTopHeight(cfg)
+    o = cfg.detector.optical
+    for r in pick:
+        try:
+            d, _ = ck.run(col("beta_rad")[r], col("altDec")[r], col("showerEnergy")[r], col("init_lat")[r], col("init_lon")[r], cloud)
+        except Exception:  # noqa: BLE001
+            ctx.probes["optical_row_recomputation_raised"] += 1
+            return
+        want = np.float64(d) * o.telescope_effective_area * o.quantum_efficiency
+        got = col("numPEs")[r]
+        if not (got == want or abs(got - want) <= 1e-9 * max(abs(got), abs(want))):
+            raise Violation(
+                "c14.cross_stage_alignment",
+                f"numPEs in row {r} is {got!r}; evaluating the shower of that row (beta_rad, altDec, showerEnergy, init_lat, init_lon of the same row) gives {want!r}",
+                sig="align:numPEs-row",
+            )
+    ctx.probes["optical_rows_recomputed"] += len(pick)
 
 
 FAMILIES = {"full": scn_full, "real": scn_real}
